@@ -103,7 +103,12 @@ Print Assumptions C05_subst_lemma_mss_partial.
    Second part (proofs/SubstituterTyped_proofs.v), using the well-formedness predicate okt and its
    lemmas okt_sound / bv_width_ok / r_array_value_sound of the C01 development
    (proofs/SimplifierSemBase_proofs.v, SimplifierSemArr_proofs.v).
-   okt t = "t is built as the FormulaManager builds it": arities, constants in range, Real
+   okt t = "t is built through the FormulaManager": CLOSURE is proved (C05_ctor_okt, C05_quant_okt:
+   whatever the modelled constructors return from okt arguments, with a payload Python can pass -
+   inhabited sorts, Fraction denominators > 0, positive BV widths, well-sorted canonically
+   ordered array indexes - and accepted by create_node's type check, is okt again; Pow excluded), so
+   the okt hypotheses below hold of every term obtained from symbols and constants through the
+   manager's constructors.  Concretely okt asks: arities, constants in range, Real
    constants with positive denominator, inhabited sorts, zero/sign-extension payload = operand
    width + increase, array values in canonical form (constant indexes in the model's order, no
    default-valued pair).  map_ok s = every replacement term is okt and has the sort of its key.
@@ -145,13 +150,24 @@ Proof. exact subst_lemma_all_but_pow. Qed.
    with_interp I p = I with every interpreted f := fun vs => eval (I + formals := vs) body.
    interps_ok true p = every interpretation has formals of the function's parameter sorts and an okt,
    Pow-free body of the result sort that is closed except for the formals (function names
-   included: what FunctionInterpretation checks) and - the side condition that makes this a
-   _partial - quantifier-free (an actual parameter can otherwise be captured by a binder of the body). *)
+   included: what FunctionInterpretation checks).  Bodies quantifier-free (bodies_qf), or - below -
+   arbitrary bodies under the capture-freeness proviso icap. *)
 Theorem C05_interp_lemma_partial : forall p t ty t' I,
-  interps_ok true p -> okt t = true -> afrag t = true -> tc t = Some ty -> wf_interp I ->
+  interps_ok true p -> bodies_qf p -> okt t = true -> afrag t = true -> tc t = Some ty -> wf_interp I ->
   subst_interp p t = Some t' ->
   tc t' = Some ty /\ eval I t' = eval (with_interp I p) t.
 Proof. exact interp_lemma_all_but_pow. Qed.
+(* bodies WITH quantifiers, under the capture-freeness proviso icap p t: at every call site no bound
+   variable of the body captures a free symbol of an actual parameter (the analogue of no_capture) *)
+Theorem C05_interp_lemma_capture_free_partial : forall p t ty t' I,
+  interps_ok true p -> icap p t -> okt t = true -> afrag t = true -> tc t = Some ty -> wf_interp I ->
+  subst_interp p t = Some t' ->
+  tc t' = Some ty /\ eval I t' = eval (with_interp I p) t.
+Proof. exact interp_lemma_capture_free. Qed.
+Theorem C05_interp_lemma_quantified_body_example :
+  interps_ok true e8_p /\ icap e8_p e8_t /\ okt e8_t = true /\ afrag e8_t = true /\ tc e8_t = Some TBool /\
+  subst_interp e8_p e8_t = Some e8_res /\ ~ icap e8_p (e8_even e8_u).
+Proof. exact interp_lemma_quantified_body_example. Qed.
 
 (* the hypotheses are satisfiable (computed results) *)
 Theorem C05_subst_lemma_typed_example :
@@ -168,7 +184,7 @@ Theorem C05_subst_lemma_array_example :
   no_capture e5_s e5_t /\ subst_mgs e5_s e5_t = Some e5_res.
 Proof. exact subst_lemma_array_example. Qed.
 Theorem C05_interp_lemma_example :
-  interps_ok true e4_p /\ okt e4_t = true /\ afrag e4_t = true /\ tc e4_t = Some TBool /\
+  interps_ok true e4_p /\ bodies_qf e4_p /\ okt e4_t = true /\ afrag e4_t = true /\ tc e4_t = Some TBool /\
   subst_interp e4_p e4_t = Some e4_res.
 Proof. exact interp_lemma_example. Qed.
 
@@ -187,9 +203,81 @@ Theorem C05_subst_congruence_example :
 Proof. exact subst_congruence_example. Qed.
 Print Assumptions C05_subst_congruence_partial.
 
+(* ---- MSS: exact characterisation.  mss_ok s t (computable): at no node of t is the node REBUILT
+   from the substituted children itself a key that is mapped to something else (the constructor
+   collapsed it onto a key symbol: not(not y) -> y, 1-ary And/Or/Plus/Times, empty prefix). *)
+(* sufficient: under mss_ok the two strategies coincide - every operator, no typing needed *)
+Theorem C05_mss_ok_coincide : forall t s, sym_keys s -> mss_ok s t = true -> subst_mss s t = subst_mgs s t.
+Proof. exact mss_ok_coincide. Qed.
+(* tight: at the first node where it fails (all arguments ok) the two strategies differ *)
+Theorem C05_mss_ok_tight : forall o args s,
+  sym_keys s -> is_quant o = None -> Forall (fun a => mss_ok s a = true) args ->
+  mss_ok s (T o args) = false -> subst_mss s (T o args) <> subst_mgs s (T o args).
+Proof. exact mss_ok_tight. Qed.
+(* hence the substitution lemma for the most-specific strategy, every operator except Pow *)
+Theorem C05_subst_lemma_mss_ok_partial : forall s t I ty t',
+  sym_keys s -> map_ok s -> okt t = true -> afrag t = true -> tc t = Some ty ->
+  no_capture s t -> wf_interp I -> mss_ok s t = true ->
+  subst_mss s t = Some t' -> eval I t' = eval (upd I s) t.
+Proof. exact subst_lemma_mss_ok. Qed.
+(* the earlier side condition (no replacement is a negation, fragment frag) implies mss_ok *)
+Theorem C05_mss_ok_of_no_neg : forall t s, sym_keys s -> no_neg_values s -> frag t = true -> mss_ok s t = true.
+Proof. exact mss_ok_of_no_neg. Qed.
+(* and mss_ok cannot be dropped: the open finding Not(b) with b := Not(b) satisfies every other
+   hypothesis and violates the conclusion *)
+Theorem C05_mss_ok_needed :
+  sym_keys mssw_s /\ map_ok mssw_s /\ okt mssw_t = true /\ afrag mssw_t = true /\ tc mssw_t = Some TBool /\
+  no_capture mssw_s mssw_t /\ wf_interp e7_I /\ mss_ok mssw_s mssw_t = false /\
+  subst_mss mssw_s mssw_t = Some (T ONot [ex_b]) /\ eval e7_I (T ONot [ex_b]) <> eval (upd e7_I mssw_s) mssw_t.
+Proof. exact mss_ok_needed. Qed.
+
+(* ---- okt is closed under the modelled constructors *)
+Theorem C05_ctor_okt : forall o args r,
+  is_quant o = None -> payload_ok o args = true -> Forall (fun a => okt a = true) args ->
+  checked (rebuild o args) = Some r -> okt r = true.
+Proof. exact ctor_okt. Qed.
+Theorem C05_quant_okt : forall fa vs b r,
+  forallb (fun v => inhb (snd v)) vs = true -> okt b = true ->
+  checked (Some (mk_quant fa vs b)) = Some r -> okt r = true.
+Proof. exact quant_okt. Qed.
+
+Print Assumptions C05_mss_ok_coincide.
+Print Assumptions C05_mss_ok_tight.
+Print Assumptions C05_subst_lemma_mss_ok_partial.
+Print Assumptions C05_interp_lemma_capture_free_partial.
+Print Assumptions C05_ctor_okt.
 Print Assumptions C05_subst_typed_partial.
 Print Assumptions C05_subst_typed_mss_partial.
 Print Assumptions C05_subst_typed_arr_partial.
 Print Assumptions C05_subst_lemma_all_but_pow_partial.
 Print Assumptions C05_interp_lemma_partial.
 Print Assumptions C05_subst_lemma_array_example.
+
+(* ---- the case analysis of the model is the dispatch of the source (gen/Operators.v and gen/Dispatch.v are
+   REGENERATED from pysmt/operators.py and the walker classes on every run; qualified names only) *)
+From PySMT.gen Require Operators Dispatch.
+From PySMT.proofs Require Operators_proofs Dispatch_common Dispatch_subst_proofs.
+Theorem C05_operator_table_matches_source :
+  (forall n, List.In n Operators.all_node_types) /\
+  (forall a b, Operators.nt_id a = Operators.nt_id b -> a = b) /\
+  (forall o, Operators.nt_modelled (Operators.nt_of_op o) = true) /\
+  (forall n, Operators.nt_modelled n = false <-> n = Operators.NT_ALGEBRAIC_CONSTANT).
+Proof.
+  exact (conj Operators_proofs.all_node_types_complete (conj Operators_proofs.nt_id_injective
+         (conj Operators_proofs.nt_of_op_modelled Operators_proofs.only_algebraic_constant_unmodelled))).
+Qed.
+
+Theorem C05_substituter_dispatch_matches_source :
+  (forall o, Dispatch.mgsubst_dispatch (Operators.nt_of_op o) =
+             match is_quant o with Some (true, _) => "walk_forall" | Some (false, _) => "walk_exists"
+                                 | None => "walk_identity_or_replace" end%string) /\
+  (forall o, Dispatch.mssubst_dispatch (Operators.nt_of_op o) =
+             match is_quant o with Some (true, _) => "walk_forall" | Some (false, _) => "walk_exists"
+                                 | None => "walk_replace" end%string) /\
+  (forall n, Dispatch.subst_dispatch n = Dispatch_common.default_handler n) /\
+  (forall n, Dispatch.subst_origin n = if Operators.nt_eqb n Operators.NT_FUNCTION then "Substituter" else "IdentityDagWalker")%string.
+Proof.
+  exact (conj Dispatch_subst_proofs.mgsubst_dispatch_matches_source (conj Dispatch_subst_proofs.mssubst_dispatch_matches_source
+        (conj Dispatch_subst_proofs.subst_dispatch_is_by_name Dispatch_subst_proofs.subst_origin_matches_source))).
+Qed.
+Print Assumptions C05_substituter_dispatch_matches_source.
